@@ -287,6 +287,7 @@ static CLOCK_NS: AtomicU64 = AtomicU64::new(0);
 static CLOCK_TICK_NS: AtomicU64 = AtomicU64::new(1000);
 static RAND_ON: AtomicBool = AtomicBool::new(false);
 static RAND_STATE: AtomicU64 = AtomicU64::new(0);
+static RAND_STATE_AUX: AtomicU64 = AtomicU64::new(0);
 static IO_YIELD: AtomicBool = AtomicBool::new(false);
 static STAMP_MTIME: AtomicBool = AtomicBool::new(false);
 pub static SLEEP_TOTAL_NS: AtomicU64 = AtomicU64::new(0);
@@ -295,6 +296,39 @@ pub const EPOCH_NS: u64 = 1_000_000_000u64 * 1_000_000_000u64;
 
 thread_local! {
     static BYPASS: Cell<u32> = const { Cell::new(0) };
+    /// Threads of the simulation proper (the run thread, scheduler-controlled threads). Helper threads (rayon
+    /// workers, tokio blocking / timer threads) read the simulated clock without advancing it and draw randomness
+    /// from a separate stream, so that their idle loops and start-up cannot perturb a run.
+    static SIM_THREAD: Cell<bool> = const { Cell::new(false) };
+}
+
+thread_local! {
+    static FROZEN: Cell<u32> = const { Cell::new(0) };
+}
+/// While alive, clock reads of this thread do not advance simulated time. Used around `Runtime::block_on` calls
+/// that wait for tokio's blocking pool: the number of park / futex-timeout iterations of such a wait (each reads
+/// the monotonic clock) depends on real timing and must not leak into the simulation.
+pub struct FreezeClock;
+impl FreezeClock {
+    pub fn new() -> FreezeClock {
+        FROZEN.with(|f| f.set(f.get() + 1));
+        FreezeClock
+    }
+}
+impl Drop for FreezeClock {
+    fn drop(&mut self) {
+        FROZEN.with(|f| f.set(f.get().saturating_sub(1)));
+    }
+}
+fn frozen() -> bool {
+    FROZEN.try_with(|f| f.get() > 0).unwrap_or(false)
+}
+
+pub fn mark_sim_thread(on: bool) {
+    SIM_THREAD.with(|m| m.set(on));
+}
+fn on_sim_thread() -> bool {
+    SIM_THREAD.try_with(|m| m.get()).unwrap_or(false) || plsim::sim::is_controlled()
 }
 
 pub struct Bypass;
@@ -340,6 +374,7 @@ pub fn clock_set_tick_ns(t: u64) {
 }
 pub fn rand_enable(seed: u64) {
     RAND_STATE.store(seed | 1, Ordering::SeqCst);
+    RAND_STATE_AUX.store(seed.rotate_left(17) ^ 0xA5A5_5A5A_0F0F_F0F1, Ordering::SeqCst);
     RAND_ON.store(true, Ordering::SeqCst);
 }
 pub fn io_yield_enable(on: bool) {
@@ -892,7 +927,11 @@ pub unsafe extern "C" fn statvfs64(path: *const c_char, buf: *mut libc::statvfs6
 // hooks: clock, sleep, randomness
 
 fn sim_clock_read() -> u64 {
-    CLOCK_NS.fetch_add(CLOCK_TICK_NS.load(Ordering::Relaxed), Ordering::SeqCst)
+    if on_sim_thread() && !frozen() {
+        CLOCK_NS.fetch_add(CLOCK_TICK_NS.load(Ordering::Relaxed), Ordering::SeqCst)
+    } else {
+        CLOCK_NS.load(Ordering::SeqCst)
+    }
 }
 
 #[no_mangle]
@@ -942,6 +981,11 @@ pub unsafe extern "C" fn time(t: *mut libc::time_t) -> libc::time_t {
 #[no_mangle]
 pub unsafe extern "C" fn nanosleep(req: *const libc::timespec, rem: *mut libc::timespec) -> c_int {
     if CLOCK_ON.load(Ordering::Relaxed) && !bypassed() && !req.is_null() {
+        if !on_sim_thread() {
+            // a helper thread's sleep must not move simulated time: really wait a little instead
+            let short = libc::timespec { tv_sec: 0, tv_nsec: 200_000 };
+            return real_nanosleep()(&short, rem);
+        }
         let d = (*req).tv_sec as u64 * 1_000_000_000 + (*req).tv_nsec as u64;
         CLOCK_NS.fetch_add(d, Ordering::SeqCst);
         SLEEP_TOTAL_NS.fetch_add(d, Ordering::Relaxed);
@@ -961,6 +1005,10 @@ pub unsafe extern "C" fn clock_nanosleep(
     rem: *mut libc::timespec,
 ) -> c_int {
     if CLOCK_ON.load(Ordering::Relaxed) && !bypassed() && !req.is_null() {
+        if !on_sim_thread() {
+            let short = libc::timespec { tv_sec: 0, tv_nsec: 200_000 };
+            return real_nanosleep()(&short, std::ptr::null_mut());
+        }
         let t = (*req).tv_sec as u64 * 1_000_000_000 + (*req).tv_nsec as u64;
         let d = if (flags & libc::TIMER_ABSTIME) != 0 { t.saturating_sub(CLOCK_NS.load(Ordering::SeqCst)) } else { t };
         CLOCK_NS.fetch_add(d, Ordering::SeqCst);
@@ -979,7 +1027,8 @@ pub unsafe extern "C" fn getrandom(buf: *mut c_void, len: size_t, flags: c_uint)
         let out = std::slice::from_raw_parts_mut(buf as *mut u8, len);
         let mut i = 0;
         while i < len {
-            let s = RAND_STATE.fetch_add(0x9E3779B97F4A7C15, Ordering::SeqCst).wrapping_add(0x9E3779B97F4A7C15);
+            let st = if on_sim_thread() { &RAND_STATE } else { &RAND_STATE_AUX };
+            let s = st.fetch_add(0x9E3779B97F4A7C15, Ordering::SeqCst).wrapping_add(0x9E3779B97F4A7C15);
             let mut z = s;
             z = (z ^ (z >> 30)).wrapping_mul(0xBF58476D1CE4E5B9);
             z = (z ^ (z >> 27)).wrapping_mul(0x94D049BB133111EB);
